@@ -46,6 +46,9 @@ type ClientState struct {
 	SentH       []int // driver history stamp (strictly increasing per send/recv action) when request i was completely sent
 	ReplyH      []int // ... when reply i was parsed by the client
 	done        bool
+	// CleanStart: when this client handed over its first byte, the proxy had already noticed (closed its descriptor of) every
+	// backend connection the driver had killed until then
+	CleanStart bool
 }
 
 func (c *ClientState) reqsSent() int {
@@ -503,6 +506,19 @@ func (d *Driver) connect(c *ClientState) {
 
 // allowed returns how many bytes of the stream the client may have sent by now according to its discipline.
 func (d *Driver) allowed(c *ClientState) int {
+	if k := c.Plan.TailAfterAnswered; k > 0 && k < len(c.bounds) {
+		head := len(c.bounds) - k
+		answered := 0
+		prefix := fmt.Sprintf("c%dr", c.Idx)
+		for _, r := range d.C.Log {
+			if r.Kind == "data" && r.Released && len(r.Tokens) > 0 && strings.HasPrefix(r.Tokens[0], prefix) {
+				answered++
+			}
+		}
+		if answered < head {
+			return c.bounds[head-1]
+		}
+	}
 	switch c.Plan.Mode {
 	case "closed":
 		i := len(c.Replies)
@@ -543,6 +559,14 @@ func (d *Driver) sendable(c *ClientState) int {
 
 func (d *Driver) send(c *ClientState, n int) {
 	b := c.stream[c.sent : c.sent+n]
+	if c.sent == 0 {
+		c.CleanStart = true
+		for _, bc := range d.C.Conns() {
+			if bc.Dead && !bc.Sock.Closed() {
+				c.CleanStart = false
+			}
+		}
+	}
 	d.K.Deliver(c.Sock, b)
 	old := c.sent
 	c.sent += n
